@@ -8,7 +8,7 @@
 From Coq Require Import ZArith Bool List.
 From ArmV Require Import Lib.PyZ Lib.Monad Lib.Machine Spec.Pseudocode Spec.Arch Spec.MachineView Spec.Branches Spec.StepFrame
   Spec.OperandSpec Spec.DPSem Proofs.StateLemmas Proofs.CondProofs Proofs.GuardProofs Proofs.DPLemmas Proofs.StepProofs Proofs.StepDP
-  Proofs.StepInstances Proofs.StepInstancesArm Proofs.StepInstancesThumb Proofs.DPRange Proofs.StepDPReg Proofs.StepInstancesArmReg Proofs.StepInstancesCmp Proofs.StepInstancesArmRsr Proofs.StepInstancesThumbReg Proofs.StepInstancesMov Proofs.StepInstancesThumb2 Proofs.MemProofs Proofs.StepFetch Proofs.StepClosed Proofs.StepInstancesExample.
+  Proofs.StepInstances Proofs.StepInstancesArm Proofs.StepInstancesThumb Proofs.DPRange Proofs.StepDPReg Proofs.StepInstancesArmReg Proofs.StepInstancesCmp Proofs.StepInstancesArmRsr Proofs.StepInstancesThumbReg Proofs.StepInstancesMov Proofs.StepInstancesThumb2 Proofs.StepInstancesShift Proofs.MemProofs Proofs.StepFetch Proofs.StepClosed Proofs.StepInstancesExample.
 From Gen Require Import enums opsyn core exec conc decoders step.
 Import ListNotations.
 Open Scope Z_scope.
@@ -784,6 +784,52 @@ Theorem C01_rsbImmediateT2_step cfg s w s1 :
     pc_of (AdvancePC (it_step_after s1 s2)) = add32 (pc_of s1) 4.
 Proof. exact (rsbImmediateT2_step cfg s w s1). Qed.
 Print Assumptions C01_rsbImmediateT2_step.
+
+(* the ARM shift-by-immediate encodings LSL, LSR, ASR, ROR{S}<c> Rd, Rm, #imm5 (MOV with a shifted register operand) *)
+Theorem C01_lslImmediateA1_step cfg s w s1 :
+  ArmV6_fetch_instruction cfg s = Ok w s1 ->
+  0 <= w < 2 ^ 32 -> is_shift_imm_a1 0 true w -> iset_of s1 = 0 -> ictx cfg s1 -> cond_holds s1 ->
+  let d := bits w 15 12 in let m := bits w 3 0 in let n := snd (DecodeImmShift 0 (bits w 11 7)) in
+  let op := (code_LslImmediate, [w; bit w 20; m; d; n]) in
+  exists s2,
+    dp_sem cfg MOV (bit w 20) (Some d) 0 (Op2Reg m SRType_LSL n) (begin_instr s1 op) = Ok tt s2 /\
+    ArmV6_emulate_cycle cfg s = Ok tt (AdvancePC (it_step_after s1 s2)) /\
+    pc_of (AdvancePC (it_step_after s1 s2)) = add32 (pc_of s1) (opcode_len s1 / 8).
+Proof. exact (lslImmediateA1_step cfg s w s1). Qed.
+Print Assumptions C01_lslImmediateA1_step.
+Theorem C01_lsrImmediateA1_step cfg s w s1 :
+  ArmV6_fetch_instruction cfg s = Ok w s1 ->
+  0 <= w < 2 ^ 32 -> is_shift_imm_a1 1 false w -> iset_of s1 = 0 -> ictx cfg s1 -> cond_holds s1 ->
+  let d := bits w 15 12 in let m := bits w 3 0 in let n := snd (DecodeImmShift 1 (bits w 11 7)) in
+  let op := (code_LsrImmediate, [w; bit w 20; m; d; n]) in
+  exists s2,
+    dp_sem cfg MOV (bit w 20) (Some d) 0 (Op2Reg m SRType_LSR n) (begin_instr s1 op) = Ok tt s2 /\
+    ArmV6_emulate_cycle cfg s = Ok tt (AdvancePC (it_step_after s1 s2)) /\
+    pc_of (AdvancePC (it_step_after s1 s2)) = add32 (pc_of s1) (opcode_len s1 / 8).
+Proof. exact (lsrImmediateA1_step cfg s w s1). Qed.
+Print Assumptions C01_lsrImmediateA1_step.
+Theorem C01_asrImmediateA1_step cfg s w s1 :
+  ArmV6_fetch_instruction cfg s = Ok w s1 ->
+  0 <= w < 2 ^ 32 -> is_shift_imm_a1 2 false w -> iset_of s1 = 0 -> ictx cfg s1 -> cond_holds s1 ->
+  let d := bits w 15 12 in let m := bits w 3 0 in let n := snd (DecodeImmShift 2 (bits w 11 7)) in
+  let op := (code_AsrImmediate, [w; bit w 20; m; d; n]) in
+  exists s2,
+    dp_sem cfg MOV (bit w 20) (Some d) 0 (Op2Reg m SRType_ASR n) (begin_instr s1 op) = Ok tt s2 /\
+    ArmV6_emulate_cycle cfg s = Ok tt (AdvancePC (it_step_after s1 s2)) /\
+    pc_of (AdvancePC (it_step_after s1 s2)) = add32 (pc_of s1) (opcode_len s1 / 8).
+Proof. exact (asrImmediateA1_step cfg s w s1). Qed.
+Print Assumptions C01_asrImmediateA1_step.
+Theorem C01_rorImmediateA1_step cfg s w s1 :
+  ArmV6_fetch_instruction cfg s = Ok w s1 ->
+  0 <= w < 2 ^ 32 -> is_shift_imm_a1 3 true w -> iset_of s1 = 0 -> ictx cfg s1 -> cond_holds s1 ->
+  let d := bits w 15 12 in let m := bits w 3 0 in let n := snd (DecodeImmShift 3 (bits w 11 7)) in
+  let op := (code_RorImmediate, [w; bit w 20; m; d; n]) in
+  exists s2,
+    dp_sem cfg MOV (bit w 20) (Some d) 0 (Op2Reg m SRType_ROR n) (begin_instr s1 op) = Ok tt s2 /\
+    ArmV6_emulate_cycle cfg s = Ok tt (AdvancePC (it_step_after s1 s2)) /\
+    pc_of (AdvancePC (it_step_after s1 s2)) = add32 (pc_of s1) (opcode_len s1 / 8).
+Proof. exact (rorImmediateA1_step cfg s w s1). Qed.
+Print Assumptions C01_rorImmediateA1_step.
 
 (* no hypothesis left about the stages of the cycle: ARM state, flat memory map (PMSA, MPU off), word-aligned PC; the instruction is
    whatever word the memory holds at the PC (Props/C13step.v discharges the fetch) *)
